@@ -133,7 +133,7 @@ def sourceRegion (img : Image) (sec : Region) (svma : Nat) : Region :=
 
 def readRange (img : Image) (rel size : Nat) : ReadRes :=
   let svma := img.base + rel                                     -- :247
-  if svma > u64max then .panic else
+  if svma > u64max then .notFound else                          -- checked_add (fix 37c4c2d8)
   match containing img.sections svma with                        -- :251-262
   | none => .notFound
   | some sec =>
